@@ -61,6 +61,9 @@ for k in range(1, 12):
     HARNESSES.append(hdr_inst(12, k, ('thorough',), witness=(k == 7), we=2))
 for k in range(1, 8):
     HARNESSES.append(hdr_inst(8, k, ('quick', 'thorough'), witness=(k == 4), we=1))
+HARNESSES.append(dict(name='chunk_step', units=['body'], file='c01_chunkstep.c', defs={'N': 4, 'VP_DISPATCH_ru8p_u8p': None}, unwind=8,
+    bound='chunk in progress with ANY size in 1..2^63-1 and any progress 0..size (inductive step), <= 4 delivered bytes at any offset',
+    desc='Chunk::parse step from an arbitrary mid-chunk state: no overflow, valid advance counts, appends inside the delivered bytes, exact progress'))
 def chunk_inst(n, k1, k2, tiers, witness):
     d = {'N': n, 'NFIX': n, 'K1FIX': k1, 'K2FIX': k2, 'D': 2 if k1 == k2 else 3, 'CHUNKED': None, 'REFERENCE': None, 'VP_DISPATCH_ru8p_u8p': None}
     return dict(name='chunk_n%d_k%d%s' % (n, k1, '' if k1 == k2 else '_%d' % k2), units=['body'], file='c01_body.c', defs=d, unwind=n + 3,
